@@ -29,7 +29,7 @@ def vdriver(name, gen_args, call, expect, kinds=VK):
     """result must equal expect(...) element-wise, share no memory with the receiver, receiver unchanged"""
     @driver(PV + name)
     def _d(run):
-        run.bound = BV(run)
+        run.bound = BV(run) if kinds == VK else f"all vectors of <= {ml(run)} elements over the pools of kinds {'/'.join(kinds)} (bounded/df.py POOLS: incl. NaN, -inf, NaT, '', None, 2**53, int64 min, 50-character strings)"
         g = ((k, vals) + tuple(a) for k, vals in vectors(ml(run), kinds) for a in gen_args(k, vals, run))
         for inp in run.inputs(g):
             k, vals, args = inp[0], inp[1], inp[2:]
@@ -96,6 +96,11 @@ def rank_vectors(maxlen):
         for n in range(maxlen + 1):
             for combo in itertools.product(pool, repeat=n):
                 yield k, enc(list(combo))
+    # the remaining dtype kinds (boolean, timedelta, unsigned, fixed-width strings, the smallest int64, -inf), up to 3 elements
+    for k in ("bool", "td", "u8", "fix", "imin", "float"):
+        for n in range(min(maxlen, 3) + 1):
+            for combo in itertools.product(POOLS[k], repeat=n):
+                yield "pool:" + k, enc(list(combo))
 
 
 def before(x, y):
@@ -114,9 +119,9 @@ def equalish(x, y):
 @driver(PV + "rank[empty vector (proved); formulas bounded]")
 def rank_driver(run):
     mlen = 5 if run.tier == "thorough" else 4
-    run.bound = f"all vectors of <= {mlen} elements over 3-value pools with ties and missing values, kinds int/float/str/date/object; methods min, max, ordinal"
+    run.bound = f"all vectors of <= {mlen} elements over 3-value pools with ties and missing values, kinds int/float/str/date/object (plus bool/timedelta/uint8/fixed-width/int64-min/-inf pools, <= 3 elements); methods min, max, ordinal"
     for k, vals in run.inputs(rank_vectors(mlen)):
-        v = mkcol("str" if k == "longstr" else k, dec(vals))
+        v = mkcol(k[5:] if k.startswith("pool:") else "str" if k == "longstr" else k, dec(vals))
         xs = list(v)
         n = len(xs)
         try:
@@ -139,7 +144,7 @@ def rank_driver(run):
 @driver(PV + "_optimize_for_argsort[order-isomorphism: bounded only]")
 def optimize_driver(run):
     run.bound = ("string vectors of <= 3 elements over {'', 'a', 'b', 'ab', 49/50-char, two 51-char strings sharing a 50-char prefix, astral}; "
-                 "other kinds: identity")
+                 "other kinds: identity; again after storing '' / 'a' / 'zz' / a 51-character string into element 0")
     pool = ["", "a", "b", "ab", "b" * 50, "\U0001F600", "c" * 49, "c" * 50 + "x", "c" * 50 + "y"]
     def gen():
         for n in range(4):
@@ -155,6 +160,19 @@ def optimize_driver(run):
         w = Vector([1.5, float("nan")])
         ok = ok and w._optimize_for_argsort() is w
         run.check([vals], ok, expected="same == and < on all pairs", got=list(o), clause="order-isomorphism")
+        # ... of the vector's CURRENT elements: after an in-place edit the result must reflect the new values (nothing remembered)
+        if vals:
+            for r in ("", "a", "zz", "c" * 50 + "z"):
+                v2 = Vector(vals, str)
+                v2._optimize_for_argsort()
+                v2[0] = r
+                o2 = v2._optimize_for_argsort()
+                ok2 = len(o2) == len(v2)
+                for i in range(len(v2)):
+                    for j in range(len(v2)):
+                        ok2 = ok2 and bool(o2[i] == o2[j]) == bool(v2[i] == v2[j]) and bool(o2[i] < o2[j]) == bool(v2[i] < v2[j])
+                run.check([vals, r], ok2, expected="same == and < on all pairs of the edited vector", got=list(o2),
+                          clause="order-isomorphism after an in-place edit of the vector")
 
 
 vdriver("sort[ascending]", none, lambda v: v.sort(), lambda v: sorted([x for x in v if not is_missing(x)]) + [x for x in v if is_missing(x)],
